@@ -317,7 +317,8 @@ def strat_sequences(tier):
                   st.sampled_from(['wrong-parity', 'm>n', 'float'])).map(lambda t: {'fn': t[0], 'n': t[1], 'm': t[2], 'junk': t[3]}))
     return st.fixed_dictionaries({'ops': st.lists(st.one_of(good, good, good, junk), min_size=2, max_size=14), 'seed': st.integers(0, 10**6),
                                   # how the arguments of the valid requests are passed: positionally, by keyword, or alternating
-                                  'argstyle': st.sampled_from(['positional', 'positional', 'keyword', 'alternating'])})
+                                  'argstyle': st.sampled_from(['positional', 'positional', 'keyword', 'alternating']),
+                                  'threads': st.sampled_from(['main', 'main', 'new-thread-per-request', 'one-worker-thread', 'alternating-threads'])})
 
 
 class _Timeout(BaseException):
@@ -358,48 +359,99 @@ def check_sequences(case, ctx):
     ctx.label('args:' + style)
     kwnames = {'noll_to_nm': ('idx',), 'fringe_to_nm': ('idx',), 'ansi_j_to_nm': ('idx',), 'xy_j_to_mn': ('j',), 'nm_to_ansi_j': ('n', 'm'), 'nm_to_fringe': ('n', 'm')}
 
+    # which thread asks: the one that imported the library, or worker threads the harness starts and joins one at a time (the harness owns the
+    # schedule: never two threads at once) - a new thread for every request, or one long-lived worker fed through queues
+    threads = case.get('threads', 'main')
+    ctx.label('thread:' + threads)
+    worker = {}
+
+    def in_thread(call):
+        import threading
+        import queue
+        if threads == 'new-thread-per-request':
+            box = []
+
+            def run():
+                try:
+                    box.append(('ok', call()))
+                except BaseException as e:      # noqa - handed back to the asking thread
+                    box.append(('err', e))
+            t = threading.Thread(target=run)
+            t.start()
+            t.join()
+        else:
+            if not worker:
+                worker['in'], worker['out'] = queue.Queue(), queue.Queue()
+
+                def loop():
+                    while True:
+                        c = worker['in'].get()
+                        if c is None:
+                            return
+                        try:
+                            worker['out'].put(('ok', c()))
+                        except BaseException as e:      # noqa
+                            worker['out'].put(('err', e))
+                worker['t'] = threading.Thread(target=loop, daemon=True)
+                worker['t'].start()
+            worker['in'].put(call)
+            box = [worker['out'].get()]
+        kind, val = box[0]
+        if kind == 'err':
+            raise val
+        return val
+
     def request(name, fn, *args):
         bykw = style == 'keyword' or (style == 'alternating' and len(hist) % 2 == 0)
+        if threads != 'main' and (threads != 'alternating-threads' or len(hist) % 2):
+            if bykw:
+                return in_thread(lambda: ctx.call(fn, **dict(zip(kwnames[name], args))))
+            return in_thread(lambda: ctx.call(fn, *args))
         if bykw:
             return ctx.call(fn, **dict(zip(kwnames[name], args)))
         return ctx.call(fn, *args)
-    for op in case['ops']:
-        fn = fns[op['fn']]
-        if 'junk' in op:
-            njunk += 1
-            if 'j' not in op and 'n' not in op:
-                base = 7 + len(hist)
-                arg = {'float': float(base), 'zero': 0, 'negative': -base, 'none': None, 'str': str(base), 'half': base + 0.5}[op['junk']]
-                args = (arg,)
-            else:
-                n_, m_ = op['n'], op['m']
-                if op['junk'] == 'wrong-parity':
-                    m_ = m_ if (n_ - m_) % 2 else m_ + 1
-                elif op['junk'] == 'm>n':
-                    m_ = n_ + 2 * (1 + abs(m_))
+    try:
+        for op in case['ops']:
+            fn = fns[op['fn']]
+            if 'junk' in op:
+                njunk += 1
+                if 'j' not in op and 'n' not in op:
+                    base = 7 + len(hist)
+                    arg = {'float': float(base), 'zero': 0, 'negative': -base, 'none': None, 'str': str(base), 'half': base + 0.5}[op['junk']]
+                    args = (arg,)
                 else:
-                    n_, m_ = float(n_) + 0.5, float(m_)
-                args = (n_, m_)
-            if op['fn'] == 'xy_j_to_mn' and op['junk'] == 'half':
-                continue          # does not terminate on the unchanged tree (its search loop never meets a non-integer index)
-            nraise += _mistaken(fn, args)
-            hist.append('%s%r (mistaken)' % (op['fn'], args))
-            continue
-        if 'j' in op:
-            jj = op['j'] - 1 if (op['fn'] == 'ansi_j_to_nm' and op['j'] % 3 == 0) else op['j']     # ANSI counts from 0
-            got = request(op['fn'], fn, jj)
-            want = refs[op['fn']](jj)
-            hist.append('%s(%d)' % (op['fn'], jj))
-            ctx.require(_eq(got, want), op['fn'] + ':after-history', '%s(%d) = %r, expected %r, after %s' % (op['fn'], jj, got, want, ', '.join(hist[:-1]) or 'nothing'))
-        else:
-            n_, m_ = op['n'], (-op['m'] if op['neg'] else op['m'])
-            hist.append('%s(%d, %d)' % (op['fn'], n_, m_))
-            got = request(op['fn'], fn, n_, m_)
-            if op['fn'] == 'nm_to_ansi_j':
-                ok = (2 * got == n_ * (n_ + 2) + m_)
+                    n_, m_ = op['n'], op['m']
+                    if op['junk'] == 'wrong-parity':
+                        m_ = m_ if (n_ - m_) % 2 else m_ + 1
+                    elif op['junk'] == 'm>n':
+                        m_ = n_ + 2 * (1 + abs(m_))
+                    else:
+                        n_, m_ = float(n_) + 0.5, float(m_)
+                    args = (n_, m_)
+                if op['fn'] == 'xy_j_to_mn' and op['junk'] == 'half':
+                    continue          # does not terminate on the unchanged tree (its search loop never meets a non-integer index)
+                nraise += _mistaken(fn, args)
+                hist.append('%s%r (mistaken)' % (op['fn'], args))
+                continue
+            if 'j' in op:
+                jj = op['j'] - 1 if (op['fn'] == 'ansi_j_to_nm' and op['j'] % 3 == 0) else op['j']     # ANSI counts from 0
+                got = request(op['fn'], fn, jj)
+                want = refs[op['fn']](jj)
+                hist.append('%s(%d)' % (op['fn'], jj))
+                ctx.require(_eq(got, want), op['fn'] + ':after-history', '%s(%d) = %r, expected %r, after %s' % (op['fn'], jj, got, want, ', '.join(hist[:-1]) or 'nothing'))
             else:
-                ok = isinstance(got, (int, np.integer)) and got >= 1 and ref_fringe(int(got)) == (n_, m_)
-            ctx.require(bool(ok), op['fn'] + ':after-history', '%s(%d, %d) = %r after %s' % (op['fn'], n_, m_, got, ', '.join(hist[:-1]) or 'nothing'))
+                n_, m_ = op['n'], (-op['m'] if op['neg'] else op['m'])
+                hist.append('%s(%d, %d)' % (op['fn'], n_, m_))
+                got = request(op['fn'], fn, n_, m_)
+                if op['fn'] == 'nm_to_ansi_j':
+                    ok = (2 * got == n_ * (n_ + 2) + m_)
+                else:
+                    ok = isinstance(got, (int, np.integer)) and got >= 1 and ref_fringe(int(got)) == (n_, m_)
+                ctx.require(bool(ok), op['fn'] + ':after-history', '%s(%d, %d) = %r after %s' % (op['fn'], n_, m_, got, ', '.join(hist[:-1]) or 'nothing'))
+    finally:
+        if worker:
+            worker['in'].put(None)
+            worker['t'].join(5)
     ctx.nt(njunk > 0 or len(set(o['fn'] for o in case['ops'])) > 2)
     ctx.label('mistaken-requests:%d' % min(njunk, 3), 'raised:%d' % min(nraise, 3), 'ops:%s' % ('<6' if len(case['ops']) < 6 else '>=6'))
 
